@@ -75,6 +75,9 @@ def render(prog: list, excl: dict | None = None) -> tuple[str, dict, dict]:
                 cls = {1: "pm_rt.E1", 2: "pm_rt.E2", 9: "Exception"}[s["x"]]
                 emit(f"except {cls}:", ind, p + (3, 0))
                 block(s["h"], p, 3, ind + 1)
+            if s.get("o"):
+                emit("else:", ind, None)
+                block(s["o"], p, 5, ind + 1)
             if s["f"]:
                 emit("finally:", ind, None)
                 block(s["f"], p, 4, ind + 1)
